@@ -14,7 +14,11 @@ COMBOS = {
     "avc_g711a": ("avc", "g711a"), "avc_g711u": ("avc", "g711u"), "avc_none": ("avc", "none"), "hevc_none": ("hevc", "none"),
     "none_aac": ("none", "aac"), "none_opus": ("none", "opus"),
 }
-NAL_SIZES = [1, 2, 183, 184, 185, 1198, 1199, 1200, 1201, 65535, 65536, 307200]
+NAL_SIZES = [1, 2, 183, 184, 185, 1198, 1199, 1200, 1201, 65535, 65536, 307200,
+             # (the first nine are the "small" ones.)  Units whose last RTP fragment is exactly full (1 + 2 * 1198, 2 + 2 * 1197,
+             # 1 + 3 * 1198 and neighbours), and pictures whose PES (access unit delimiter + start code + unit + PES header
+             # fields) is just below / just above what PES_packet_length can hold
+             2395, 2396, 2397, 2398, 3594, 3595, 65520, 65524]
 AAC_SIZES = [1, 2, 7, 177, 188, 371, 1024, 1196, 1197, 8184]
 RAW_SIZES = [2, 3, 160, 320, 1200, 1201, 1275]
 T0_POOL = [0, 1000, 16777215 - 40, 0x7fffffff - 90000, 47721858, 0xffffffff]   # the last one is lowered so that the stream does not wrap
@@ -268,6 +272,38 @@ def directed(ctx, sc0):
             if i == 5:
                 steps.append({"name": "Pub", "m": mt(rate), "ts": t + 27})
                 steps.append({"name": "Join", "c": "t2"})
+            t += 40
+        steps.append({"name": "End"})
+        out.append({"sc": sc0 + len(out), "combo": combo, "steps": steps,
+                    "cfg": {"v": v, "a": a, "gop": 1, "hls": True, "fragMs": 100, "rtsp": True}})
+    # a sequence header that changes the pps only (same sps, field sv): whoever asks for the description afterwards, and every
+    # key picture on the TS side, gets the pps in force next to the unchanged sps
+    for combo in ("avc_aac", "hevc_aac", "avc_none"):
+        v, a = COMBOS[combo]
+        def vm3(key, n):
+            return {"k": "v", "ver": 0, "key": key, "cts": 0, "n": 0, "nals": [{"t": "idr" if key else "slice", "v": 0, "n": n}]}
+        steps = [{"name": "Join", "c": "t1"},
+                 {"name": "Pub", "m": {"k": "vsh", "ver": 1, "key": False, "cts": 0, "n": 0, "nals": []}, "ts": 300}]
+        if a == "aac":
+            steps.append({"name": "Pub", "m": {"k": "ash", "ver": 3, "key": False, "cts": 0, "n": 0, "nals": []}, "ts": 300})
+        t = 300
+        for i in range(18 if a == "none" else 4):
+            steps.append({"name": "Pub", "m": vm3(i % 5 == 0, 70 + i), "ts": t})
+            if a != "none":
+                steps.append({"name": "Pub", "m": {"k": "a", "ver": 0, "key": False, "cts": 0, "n": 50 + i, "nals": []}, "ts": t + 9})
+            if i == 1:
+                steps.append({"name": "JoinRtsp"})       # described by the first header
+            t += 40
+        steps.append({"name": "Pub", "m": {"k": "vsh", "ver": 2, "sv": 1, "key": False, "cts": 0, "n": 0, "nals": []}, "ts": t})
+        for i in range(6):
+            steps.append({"name": "Pub", "m": vm3(i % 3 == 0, 130 + i), "ts": t})
+            if a != "none":
+                steps.append({"name": "Pub", "m": {"k": "a", "ver": 0, "key": False, "cts": 0, "n": 20 + i, "nals": []}, "ts": t + 9})
+            if i == 1:
+                steps.append({"name": "DescR"})          # asks after the change
+                steps.append({"name": "Join", "c": "t2"})
+            if i == 2:
+                steps.append({"name": "PlayR"})
             t += 40
         steps.append({"name": "End"})
         out.append({"sc": sc0 + len(out), "combo": combo, "steps": steps,
